@@ -1,4 +1,4 @@
-import Hive.Proofs.Stream
+import Hive.Proofs.StreamInPlace
 /-!
 # C01 (stream part) — each stream Write*/Read* helper pair round-trips through any io.Reader
 
@@ -15,10 +15,41 @@ theorem C01_stream_readFull_any_chunking (e tail : Bytes) (chunks : List Nat) :
     ∃ chunks', readFull e.length ⟨e ++ tail, chunks⟩ = (some e, ⟨tail, chunks'⟩) :=
   readFull_append e tail chunks
 
-/-- What a writer program leaves in a fresh `ByteBuffer` is the concatenation of the encodings of its
-calls (`encW`), and the calls fail exactly when `encW` is undefined (a length that does not fit its
-prefix).  `WriteCollection`'s seek-back-and-patch of the count is part of this statement. -/
-theorem C01_stream_write_layout (ops : List WOp) :
+/-- **Layout of what the writers write, for every buffer.**  Whatever the `ByteBuffer` holds before and
+behind its position (created with an initial length, rewound with `Seek`, positioned beyond its end):
+a writer program is ONE write of the concatenation of its calls' encodings (`encW`) at the current
+position — it overwrites exactly `enc.length` bytes of the storage, keeps everything before and behind
+them, and leaves the position directly behind what it wrote; the calls fail exactly when `encW` is
+undefined (a length that does not fit its prefix).  For `WriteCollection` this is the statement that
+its seek-back-and-patch of the count returns to the offset behind the written elements, not to the end
+of the storage. -/
+theorem C01_stream_write_layout (ops : List WOp) (w : BB) (h : ops ≠ [] ∨ w.pos ≤ w.buf.length) :
+    runW ops w = (encW ops).map w.write := by
+  cases ops with
+  | nil =>
+    rcases h with h | h
+    · exact absurd rfl h
+    · exact runW_write [] w h
+  | cons op ops =>
+    simp only [runW, encW, runWOp_write]
+    cases h1 : encOp op with
+    | none => simp
+    | some a =>
+      have hp' : (w.write a).pos ≤ (w.write a).buf.length := by
+        rw [BB.write_pos, BB.write_buf]
+        have := w.take_pos_length
+        simp only [List.length_append]; omega
+      simp only [Option.map_some, runW_write ops (w.write a) hp']
+      cases h2 : encW ops with
+      | none => simp
+      | some b => simp [BB.write_write]
+
+/-- the same for one call -/
+theorem C01_stream_op_write_layout (op : WOp) (w : BB) : runWOp op w = (encOp op).map w.write :=
+  runWOp_write op w
+
+/-- the fresh, append-only buffer as the special case -/
+theorem C01_stream_write_layout_fresh (ops : List WOp) :
     runW ops ⟨[], 0⟩ = (encW ops).map (fun e => ⟨e, e.length⟩) := by
   have h := runW_end ops []
   simpa [atEnd] using h
@@ -37,7 +68,7 @@ theorem C01_stream_any_chunking (ops : List WOp) (bb : BB) (hrun : runW ops ⟨[
     (runProg (readOf ops) ⟨bb.buf ++ tail, chunks⟩).res = .ok ∧
     (runProg (readOf ops) ⟨bb.buf ++ tail, chunks⟩).vals = valsOf ops ∧
     (runProg (readOf ops) ⟨bb.buf ++ tail, chunks⟩).rd.rest = tail := by
-  rw [C01_stream_write_layout] at hrun
+  rw [C01_stream_write_layout_fresh] at hrun
   cases he : encW ops with
   | none => simp [he] at hrun
   | some e =>
@@ -46,12 +77,40 @@ theorem C01_stream_any_chunking (ops : List WOp) (bb : BB) (hrun : runW ops ⟨[
     obtain ⟨cs', c, h⟩ := prog_roundtrip ops e tail chunks he hw
     simp [h]
 
+/-- **Round trip of data written in place.**  For every buffer `w` (any storage, any position), a writer
+program run at `w.pos` and read back from that offset of the resulting storage — through any chunking —
+returns exactly the written values, and what the reader has left is exactly the storage behind the new
+write position (old data included: nothing of it is consumed, nothing is skipped). -/
+theorem C01_stream_in_place_any_chunking (ops : List WOp) (w w' : BB) (hne : ops ≠ [] ∨ w.pos ≤ w.buf.length)
+    (hrun : runW ops w = some w') (hw : ∀ op ∈ ops, op.wf) (chunks : List Nat) :
+    (runProg (readOf ops) ⟨w'.buf.drop w.pos, chunks⟩).res = .ok ∧
+    (runProg (readOf ops) ⟨w'.buf.drop w.pos, chunks⟩).vals = valsOf ops ∧
+    (runProg (readOf ops) ⟨w'.buf.drop w.pos, chunks⟩).rd.rest = w'.buf.drop w'.pos := by
+  rw [C01_stream_write_layout ops w hne] at hrun
+  cases he : encW ops with
+  | none => simp [he] at hrun
+  | some e =>
+    simp only [he, Option.map_some, Option.some.injEq] at hrun
+    subst hrun
+    rw [BB.drop_after_write]
+    obtain ⟨cs', c, h⟩ := prog_roundtrip ops e ((w.write e).buf.drop (w.write e).pos) chunks he hw
+    simp [h]
+
+/-- Non-vacuity: a collection rewritten in place in front of existing data inside a buffer with spare
+storage, followed by one more value: the bytes, the position and the read-back. -/
+example :
+    let w : BB := ⟨[9, 9, 9, 9, 9, 9, 9, 9, 9, 9], 2⟩
+    runW [.coll .u8 (.num 1) [[5], [6]], .num 2 [7, 0]] w = some ⟨[9, 9, 2, 5, 6, 7, 0, 9, 9, 9], 7⟩ ∧
+    (runProg (readOf [.coll .u8 (.num 1) [[5], [6]], .num 2 [7, 0]]) ⟨[2, 5, 6, 7, 0, 9, 9, 9], [1, 1, 1]⟩).vals
+      = [.bytes [5], .bytes [6], .bytes [7, 0]] := by
+  decide
+
 /-- Non-vacuity of the hypotheses: a program with a collection, a sized byte string and a uint64
 prefix is written successfully and is well-formed. -/
 example : (runW [.coll .u16 (.bws .u8) [[1, 2], [], [3]], .ows .u64 [9, 9], .num 4 [1, 0, 0, 0]] ⟨[], 0⟩).isSome = true
     ∧ ∀ op ∈ [WOp.coll .u16 (.bws .u8) [[1, 2], [], [3]], .ows .u64 [9, 9], .num 4 [1, 0, 0, 0]], op.wf := by
   constructor
-  · rw [C01_stream_write_layout]; decide
+  · rw [C01_stream_write_layout_fresh]; decide
   · intro op hop; simp at hop; rcases hop with h | h | h <;> subst h <;> simp [WOp.wf]
 
 /-- The unrepaired `ReadBytes` (one `Read`, short read = error) failed as soon as the reader split
